@@ -4,6 +4,7 @@ use std::{
     time::{Duration, SystemTime},
 };
 
+use jiff::Timestamp;
 use log::warn;
 
 use crate::{
@@ -41,6 +42,9 @@ where
     /// The set of indexed blobs. Blobs are identified by type and id: a data blob and a
     /// tree blob can have the same id (a file whose content equals a serialized tree).
     indexed: Option<BTreeSet<(BlobType, BlobId)>>,
+    /// Packs marked for deletion which are held back until `release_removals` is called
+    /// (`None`: `add_remove` adds them to the index file at once).
+    held_removals: Option<Vec<IndexPack>>,
 }
 
 impl<BE: DecryptWriteBackend> Indexer<BE> {
@@ -60,6 +64,7 @@ impl<BE: DecryptWriteBackend> Indexer<BE> {
             count: 0,
             created: SystemTime::now(),
             indexed: Some(BTreeSet::new()),
+            held_removals: None,
         }
     }
 
@@ -79,6 +84,7 @@ impl<BE: DecryptWriteBackend> Indexer<BE> {
             count: 0,
             created: SystemTime::now(),
             indexed: None,
+            held_removals: None,
         }
     }
 
@@ -142,7 +148,34 @@ impl<BE: DecryptWriteBackend> Indexer<BE> {
     ///
     /// * If the index file could not be serialized.
     pub fn add_remove(&mut self, pack: IndexPack) -> RusticResult<()> {
+        if let Some(held) = &mut self.held_removals {
+            held.push(pack);
+            return Ok(());
+        }
         self.add_with(pack, true)
+    }
+
+    /// Hold back the packs added by `add_remove` until `release_removals` is called.
+    pub fn hold_removals(&mut self) {
+        self.held_removals = Some(Vec::new());
+    }
+
+    /// Adds the packs held back since `hold_removals` to the index as packs marked for deletion.
+    ///
+    /// The marks become visible to other commands when the index file is written after this call;
+    /// those stamped with `stamped` (the time they were planned) get the time `now` instead.
+    ///
+    /// # Errors
+    ///
+    /// * If the index file could not be serialized.
+    pub fn release_removals(&mut self, stamped: Timestamp, now: Timestamp) -> RusticResult<()> {
+        for mut pack in self.held_removals.take().unwrap_or_default() {
+            if pack.time == Some(stamped) {
+                pack.time = Some(now);
+            }
+            self.add_with(pack, true)?;
+        }
+        Ok(())
     }
 
     /// Adds a pack to the `Indexer`.
